@@ -46,6 +46,7 @@ type typesMap struct {
 	prefix     string
 	generated  map[string]bool
 	funcToTyps map[string][]types.Type
+	names      []string
 	typss      [][]types.Type
 	reserved   map[string]struct{}
 	autoname   bool
@@ -58,6 +59,7 @@ func newTypesMap(qual types.Qualifier, prefix string, reserved map[string]struct
 		prefix:     prefix,
 		generated:  make(map[string]bool),
 		funcToTyps: make(map[string][]types.Type),
+		names:      nil,
 		typss:      nil,
 		reserved:   reserved,
 		autoname:   autoname,
@@ -116,6 +118,7 @@ func (tm *typesMap) SetFuncName(funcName string, typs ...types.Type) (string, er
 		return "", fmt.Errorf("conflicting function names %s(%v) and %s(%v)", funcName, ts, funcName, typs)
 	}
 	tm.funcToTyps[funcName] = typs
+	tm.names = append(tm.names, funcName)
 	tm.typss = append(tm.typss, typs)
 	// Function names are package wide, but every plugin has its own typesMap.
 	// The reserved set is shared by all the typesMaps of a package, so recording the name here
@@ -189,8 +192,11 @@ func (tm *typesMap) nameOf(typs []types.Type) (string, bool) {
 			}
 		}
 	}
-	for name, ts := range tm.funcToTyps {
-		if eq(typs, ts) {
+	// Look the names up in registration order and not in the order of the map:
+	// more than one registered type list can be assignable from typs
+	// and the choice has to be the same on every run.
+	for _, name := range tm.names {
+		if eq(typs, tm.funcToTyps[name]) {
 			return name, true
 		}
 	}
